@@ -306,7 +306,7 @@ def make_machine(rec: Rec, zyg, pool, creates, groups, check_registry_every_step
                 if now != snap:
                     rec.fail("stored_object_mutated", "objects_immutable", {"history": list(PLOG), "object": c}, snap, now)
                     _raise_for_shrinking()
-            if check_registry_every_step:
+            if check_registry_every_step and len(self.history) % 8 == 0:
                 self._registry()
 
         def _registry(self):
@@ -387,7 +387,7 @@ def shard(arg):
         machine = make_machine(rec, zyg, pool, creates, groups, check_registry_every_step=not quick)
         from hypothesis import Phase
         # no Hypothesis shrink phase (hard five-minute cap, no budget control): failing histories are minimised by ddmin below
-        s = settings(max_examples=20 if quick else 380, stateful_step_count=40 if quick else 80, deadline=None, database=None,
+        s = settings(max_examples=20 if quick else 160, stateful_step_count=40 if quick else 80, deadline=None, database=None,
                      report_multiple_bugs=False, suppress_health_check=list(HealthCheck), print_blob=False,
                      derandomize=False, phases=[Phase.generate])
         _SHRINK["deadline"] = None
